@@ -4,11 +4,13 @@ EXTENDS Cli
      dA: v1 (valid), d1 (needs v1)      dB: v2 (valid), s1 (semantic error)
      dC: empty                          dD: v3 (valid) + an unreadable entry
      dE: l1 (lexical error)             dF: y1 (syntax error)
-     dG: w1 (semantic error), W1 (valid) - two files whose names differ in letter case only     *)
-MCDirOf    == [v1 |-> "dA", d1 |-> "dA", v2 |-> "dB", s1 |-> "dB", v3 |-> "dD", l1 |-> "dE", y1 |-> "dF", w1 |-> "dG", W1 |-> "dG"]
-MCClassOf  == [v1 |-> "V", d1 |-> "D", v2 |-> "V", s1 |-> "S", v3 |-> "V", l1 |-> "L", y1 |-> "Y", w1 |-> "S", W1 |-> "V"]
-MCProvider == [v1 |-> "-", d1 |-> "v1", v2 |-> "-", s1 |-> "-", v3 |-> "-", l1 |-> "-", y1 |-> "-", w1 |-> "-", W1 |-> "-"]
-MCDirNames == {"dA", "dB", "dC", "dD", "dE", "dF", "dG"}
+     dG: w1 (semantic error), W1 (valid) - two files whose names differ in letter case only
+     dH: k1 (syntax error) - present in the directory as a SYMBOLIC LINK to a regular file elsewhere: a file of the set
+         like any other, whether it is named directly or found in the directory                  *)
+MCDirOf    == [v1 |-> "dA", d1 |-> "dA", v2 |-> "dB", s1 |-> "dB", v3 |-> "dD", l1 |-> "dE", y1 |-> "dF", w1 |-> "dG", W1 |-> "dG", k1 |-> "dH"]
+MCClassOf  == [v1 |-> "V", d1 |-> "D", v2 |-> "V", s1 |-> "S", v3 |-> "V", l1 |-> "L", y1 |-> "Y", w1 |-> "S", W1 |-> "V", k1 |-> "Y"]
+MCProvider == [v1 |-> "-", d1 |-> "v1", v2 |-> "-", s1 |-> "-", v3 |-> "-", l1 |-> "-", y1 |-> "-", w1 |-> "-", W1 |-> "-", k1 |-> "-"]
+MCDirNames == {"dA", "dB", "dC", "dD", "dE", "dF", "dG", "dH"}
 MCBadDirs  == {"dD"}
 
 (* The disk of the encoding configuration (C14): one directory, three files that carry non-ASCII text *)
